@@ -87,7 +87,7 @@ BigC == { BN(1, B!NAdd(B!NPow(<<2>>, 53), <<1>>), <<1>>),        \* 2^53 + 1
           BN(1, P10(30), <<1>>),                                 \* 10^30
           BN(1, B!NAdd(P10(20), <<1>>), <<3>>),                  \* (10^20 + 1) / 3
           BN(0 - 1, <<1>>, P10(20)) }                            \* -10^-20
-Huge == BN(1, P10(320), <<1>>)                                   \* beyond the float range
+Huge == BN(1, [i \in 1..80 |-> 0] \o <<1>>, <<1>>)                 \* 10^320 (Base = 10^4): beyond the float range
 BigL == {FlE("ib"), FlE("iu"), FlE("il"), FlE("rb"), FlE("rh"), CE(Z(3)), CE(Z(1)), CE(NV(1, 3)), CE(Z(0 - 2))}
 IsConstE(e) == e.op = "const"
 BigCases ==
